@@ -2,6 +2,7 @@
 (* Trace specification for C04.  Events (harness/drv_bounds.c):                                   *)
 (*   Reset                                                                                        *)
 (*   Req n kind mode ... m sx sy dx dy w h sw sh dw dh srep sfilt ok     the request as scripted   *)
+(*       mw mh (0 0: no mask)  tm (1: m, srep, sfilt belong to the mask, the source is untransformed) *)
 (*   Dispatch ext sfl mfl     (hook) composite extents and the flags pixman computed                *)
 (*   Stray size               an accessor callback was handed an address outside every image       *)
 (*   Done n imgs              imgs[i] = [id, size, overflow, iv]: merged intervals of accessed bytes *)
@@ -10,7 +11,8 @@
 (* reaches Done (no Crash); if the library raised SAMPLES_COVER_CLIP_NEAREST / _BILINEAR for the    *)
 (* source of a request with an affine transform, then the nearest sample / both bilinear            *)
 (* neighbours of every destination pixel of the extents lie inside the source (evaluated at the     *)
-(* corner pixels, at full 16.16 resolution, whenever the products fit TLC's integers).              *)
+(* corner pixels, at full 16.16 resolution, in split arithmetic: extents up to the 16-bit limits);  *)
+(* the same for the mask's flags.                                                                   *)
 EXTENDS Bounds, TraceIO
 
 VARIABLES l, cur
@@ -26,23 +28,36 @@ TReset == Is("Reset") /\ cur' = <<>> /\ Adv
 TReq == Is("Req") /\ cur' = Ev /\ Adv
 
 Abs(x) == IF x < 0 THEN -x ELSE x
-(* the matrix as <<m00, m01, m02, m10, m11, m12>>; the pixel (x, y) of the reported extents samples the   *)
-(* source at the transform applied to (x + sx - mx, y + sy - my)                                         *)
+(* The request's transform m = <<m00, m01, m02, m10, m11, m12, ...>> belongs to the source (tm = 0) or to the mask   *)
+(* (tm = 1: requests whose big / transformed image is the mask); the other image is untransformed.  The hook       *)
+(* reports the extents after pixman moved them to mask space (ext = region - dest + mask): the pixel (x, y) of ext  *)
+(* samples the mask at its transform applied to (x, y) and the source at its transform applied to                  *)
+(* (x + sx - mx, y + sy - my).                                                                                      *)
 Affine(r) == r.m[7] = 0 /\ r.m[8] = 0 /\ r.m[9] = 65536
-Fits(r, ext) ==
-    /\ \A i \in 1..6 : Abs(r.m[i]) <= 1048576
-    /\ \A i \in 1..4 : Abs(ext[i]) <= 500
-    /\ Abs(r.sx - r.mx) <= 500 /\ Abs(r.sy - r.my) <= 500
-(* the hook reports the extents after pixman moved them to mask space: ext = region - dest + mask *)
-Shifted(ext, r) == <<ext[1] + r.sx - r.mx, ext[2] + r.sy - r.my, ext[3] + r.sx - r.mx, ext[4] + r.sy - r.my>>
+IdM == <<65536, 0, 0, 0, 65536, 0>>
 M6(r) == <<r.m[1], r.m[2], r.m[3], r.m[4], r.m[5], r.m[6]>>
+SrcM(r) == IF r.tm = 1 THEN IdM ELSE M6(r)
+MaskM(r) == IF r.tm = 1 THEN M6(r) ELSE IdM
+Shifted(ext, r) == <<ext[1] + r.sx - r.mx, ext[2] + r.sy - r.my, ext[3] + r.sx - r.mx, ext[4] + r.sy - r.my>>
+(* evaluated at full 16.16 resolution in split form (Bounds!WideIndex) for matrix entries up to 16.0 and   *)
+(* coordinates up to 2^17 pixels: everything the library admits (extents are 16 bit) with |scale| <= 16     *)
+Fits(m, e) ==
+    /\ \A i \in {1, 2, 4, 5} : Abs(m[i]) <= 1048576
+    /\ \A i \in 1..4 : Abs(e[i]) <= 131072
+Small(r, ext) ==
+    /\ \A i \in 1..4 : Abs(ext[i]) <= 65536
+    /\ Abs(r.sx) <= 32768 /\ Abs(r.mx) <= 32768 /\ Abs(r.sy) <= 32768 /\ Abs(r.my) <= 32768
+CoverSound(fl, m, e, w, h) ==
+    Fits(m, e) =>
+       /\ (COVER_NEAREST \in fl) => WAllNearestInside(m, e, w, h)
+       /\ (COVER_BILINEAR \in fl) => WAllBilinearInside(m, e, w, h)
 
 TDispatch ==
     /\ Is("Dispatch") /\ cur # <<>>
-    /\ LET sfl == SetOf(Ev.sfl)  ext == Ev.ext IN
-       (cur.kind = "C" /\ Affine(cur) /\ Fits(cur, ext) /\ ext[1] < ext[3] /\ ext[2] < ext[4]) =>
-          /\ ((COVER_NEAREST \in sfl) => AllNearestInside(M6(cur), Shifted(ext, cur), cur.sw, cur.sh, 65536)) = TRUE
-          /\ ((COVER_BILINEAR \in sfl) => AllBilinearInside(M6(cur), Shifted(ext, cur), cur.sw, cur.sh, 65536)) = TRUE
+    /\ LET sfl == SetOf(Ev.sfl)  mfl == SetOf(Ev.mfl)  ext == Ev.ext IN
+       (cur.kind = "C" /\ Affine(cur) /\ ext[1] < ext[3] /\ ext[2] < ext[4] /\ Small(cur, ext)) =>
+          /\ CoverSound(sfl, SrcM(cur), Shifted(ext, cur), cur.sw, cur.sh) = TRUE
+          /\ (cur.mw > 0 => CoverSound(mfl, MaskM(cur), ext, cur.mw, cur.mh)) = TRUE
     /\ UNCHANGED cur /\ Adv
 
 TDone ==
